@@ -495,7 +495,10 @@ func (in *Interp) initInstr(fr *Frame, ins ssa.Instruction) {
 
 func (in *Interp) callFunction(fn *ssa.Function, args []Value, bindings []Value) Value {
 	if ix := in.sh.intrinsic(fn); ix != nil {
-		return ix(in, fn, args)
+		r := ix(in, fn, args)
+		if _, real := r.(runRealBody); !real {
+			return r
+		}
 	}
 	if in.sched != nil && in.sched.explore && preemptCalls[fn.String()] {
 		in.preemptPoint() // store operations are synchronisation points of the modelled libraries
@@ -534,6 +537,9 @@ func (in *Interp) callFunction(fn *ssa.Function, args []Value, bindings []Value)
 	in.runFrame(fr)
 	return fr.result
 }
+
+// runRealBody: returned by an intrinsic that does not apply to these arguments; the function's own body is executed.
+type runRealBody struct{}
 
 // runFrame executes the body, handling Go panics and defers.
 func (in *Interp) runFrame(fr *Frame) {
